@@ -312,13 +312,17 @@ def driftLine (args0 impl : List String) : String :=
         | _ => none
       let v := match ipub with
         | some pub => verdict "C19" true (C19.Holds an pub)
-        | none => "C19:FAILS oracle:unparsed"
+        | none => if impl == ["relinked"] then "C19:na" else "C19:FAILS oracle:unparsed"
       let tags := match an with
         | none => ["omitted"]
         | some r => (if r * 1000 ≥ 4294967296 then ["unrepresentable"] else ["representable"]) ++
                     (if r + 2 ≥ 4294968 ∧ r ≤ 4294970 then ["boundary"] else [])
-      let tags := tags ++ (if mods.contains "@prior" then ["priorLive"] else []) ++ (if mods.contains "@env" then ["envSet"] else []) ++ (if mods.contains "@phc" then ["phcOptions"] else [])
-      s!"{mtxt} | {v} | {String.intercalate "," tags}"
+      let tags := tags ++ (if mods.contains "@prior" then ["priorLive"] else []) ++ (if mods.contains "@env" then ["envSet"] else []) ++ (if mods.contains "@phc" then ["phcOptions"] else []) ++
+        (if mods.contains "@link" then ["linkPath"] else [])
+      -- `@link`: the path is a symbolic link to the segment file: the daemon publishes through it (C04: the file attached clients
+      -- have mapped is the one that goes on being updated); "relinked" = the link was replaced or another file was updated
+      let v04 := if mods.contains "@link" then " " ++ verdict "C04" m.isSome (match impl with | ["ok", _] => true | _ => false) else ""
+      s!"{mtxt} | {v}{v04} | {String.intercalate "," tags}"
 
 /-! ### seqlock scenarios -/
 
